@@ -208,17 +208,17 @@ parse_header(RPFrame *frame, void *buf, size_t n)
 static int
 check_payload(const RPFrame *f)
 {
-    if (regp_has_hdcrc(f) == false || f->payload.size == 0u) {
+    if (regp_has_plcrc(f) == false) {
         return 0;
     }
 
     uint16_t crc = 0u;
 
     if (BIT_ISSET(f->header.options, RP_OPT_WORD_SIZE_16)) {
-        crc = ufw_buffer_crc16_arc_u16(f->payload.data, f->header.blocksize);
+        crc = ufw_buffer_crc16_arc_u16(f->payload.data, f->payload.size / 2u);
     } else {
 #ifdef WITH_UINT8_T
-        crc = ufw_buffer_crc16_arc(f->payload.data, f->header.blocksize);
+        crc = ufw_buffer_crc16_arc(f->payload.data, f->payload.size);
 #else
         return -EINVAL;
 #endif /* WITH_UINT8_T */
